@@ -71,6 +71,12 @@ def usingEncoded : Ty → Val → Res Bytes
 /-- `Encode::encoded_size`: `encode_to` into a sink that only counts. -/
 def encodedSize (ty : Ty) (v : Val) : Res Nat := (encodeTo ty v).map List.length
 
+/-- `Joiner::and` (`src/joiner.rs`): `value.using_encoded(|s| self.extend(s))` on a byte vector. -/
+def joinerAnd (acc : Bytes) (ty : Ty) (v : Val) : Res Bytes := (usingEncoded ty v).map fun s => acc ++ s
+
+/-- `KeyedVec::to_keyed_vec` (`src/keyedvec.rs`): the key, then the bytes `using_encoded` hands out. -/
+def toKeyedVec (key : Bytes) (ty : Ty) (v : Val) : Res Bytes := (usingEncoded ty v).map fun s => key ++ s
+
 /-- An output sink, abstractly: a state, what `write` does to it, and the byte string it has
     observed so far. -/
 structure Sink (σ : Type) where
